@@ -278,39 +278,43 @@ def _closest_points_on_segments_2d(a0x: float, a0y: float, a1x: float, a1y: floa
     D = ux * wx + uy * wy
     E = vx * wx + vy * wy
 
-    den = A * C - B * B
     s = 0.0
     t = 0.0
-    if den > 0.0:
-        s = (B * E - C * D) / den
-        t = (A * E - B * D) / den
-
-    # clamp and recompute as needed
-    if s < 0.0:
-        s = 0.0
-        if C > 0.0:
-            t = E / C
-    elif s > 1.0:
-        s = 1.0
-        if C > 0.0:
-            t = (E + B) / C
-
-    if t < 0.0:
-        t = 0.0
-        if A > 0.0:
+    if A > 0.0 and C > 0.0:
+        den = A * C - B * B
+        if den > 0.0:
+            s = (B * E - C * D) / den
+            if s < 0.0:
+                s = 0.0
+            elif s > 1.0:
+                s = 1.0
+        # closest point on the second segment to the point at s; for parallel
+        # segments (den == 0) any s is a valid starting point
+        t = (B * s + E) / C
+        if t < 0.0:
+            t = 0.0
             s = -D / A
-            if s < 0.0:
-                s = 0.0
-            elif s > 1.0:
-                s = 1.0
-    elif t > 1.0:
-        t = 1.0
-        if A > 0.0:
+        elif t > 1.0:
+            t = 1.0
             s = (B - D) / A
-            if s < 0.0:
-                s = 0.0
-            elif s > 1.0:
-                s = 1.0
+        if s < 0.0:
+            s = 0.0
+        elif s > 1.0:
+            s = 1.0
+    elif A > 0.0:
+        # second segment degenerates to a point
+        s = -D / A
+        if s < 0.0:
+            s = 0.0
+        elif s > 1.0:
+            s = 1.0
+    elif C > 0.0:
+        # first segment degenerates to a point
+        t = E / C
+        if t < 0.0:
+            t = 0.0
+        elif t > 1.0:
+            t = 1.0
 
     px = a0x + s * ux
     py = a0y + s * uy
